@@ -89,6 +89,7 @@ type ClientOpt struct {
 	RevIdent  string // non-empty: attach a reverse handler with this identity
 	RevSvc    *svc.Svc
 	Direct    bool // bypass the proxy
+	Ctx       context.Context
 }
 
 type Client struct {
@@ -118,7 +119,11 @@ func (e *Env) NewClient(o ClientOpt) (*Client, error) {
 	if o.Direct {
 		addr = strings.Replace(addr, e.Px.Addr(), e.TS.Listener.Addr().String(), 1)
 	}
-	closer, err := jsonrpc.NewMergeClient(context.Background(), addr, "S", []interface{}{&c.Client}, nil, opts...)
+	cctx := o.Ctx
+	if cctx == nil {
+		cctx = context.Background()
+	}
+	closer, err := jsonrpc.NewMergeClient(cctx, addr, "S", []interface{}{&c.Client}, nil, opts...)
 	if err != nil {
 		return nil, err
 	}
